@@ -83,6 +83,34 @@ func (c03) Generate(r *engine.Rand, index int, tier string) *engine.Scenario {
 	}
 	g := &progGen{r: r, base: base}
 	g.emitStackSetup()
+	if index%32 == 9 {
+		// the 16-bit immediate of LD (nn),SP / LD (nn),A / LD A,(nn) coincides with what a register pair
+		// holds (HL, BC, DE, SP and its neighbours): the accesses keep their documented cycles and order
+		sc.Class = "stamped-operand-coincidence"
+		nn := uint16(0xc800 + r.Intn(0x1000))
+		switch r.Intn(7) {
+		case 0:
+			g.emit16(0x21, nn)
+		case 1:
+			g.emit16(0x01, nn)
+		case 2:
+			g.emit16(0x11, nn)
+		default:
+			g.emit16(0x31, nn+uint16(engine.Pick(r, []int{0, 2, 2, 1, 0xffff, 3, 0xfffe})))
+		}
+		g.filler(r.Intn(3))
+		off := len(g.code)
+		g.emit16(engine.Pick(r, []uint8{0x08, 0x08, 0xea, 0xfa}), nn)
+		g.filler(3)
+		g.emitStackSetup()
+		g.finish()
+		lsScenario(sc, r, g)
+		sc.SetP("tpc", int64(base)+int64(off))
+		sc.SetP("hist", 0)
+		sc.SetP("stamp", int64(r.Byte()&0x0f))
+		sc.Cycles = uint64(len(g.code))*6 + 64
+		return sc
+	}
 	hist := 0
 	if r.Chance(2, 3) {
 		hist = r.Range(1, 6)
